@@ -396,12 +396,17 @@ def cargo_build(crate_dir, features=(), release=False, timeout=3000, extra_env=N
     return rc, out
 
 
-def ds_driver_build():
-    d = os.path.join(VERIF, "harness", "ds_driver")
-    rc, out = cargo_build(d)
+def harness_build(name="ds_driver", features=()):
+    """build /verif/harness/<name> against /repo's working tree; returns (binary or None, log)"""
+    d = os.path.join(VERIF, "harness", name)
+    rc, out = cargo_build(d, features=features)
     if rc:
         return None, out
-    return os.path.join(BUILD, "target", "debug", "ds_driver"), out
+    return os.path.join(BUILD, "target", "debug", name), out
+
+
+def ds_driver_build():
+    return harness_build("ds_driver")
 
 
 def ds_run(binary, suite, lines, timeout=900, chunk=None):
